@@ -17,6 +17,7 @@ import (
 
 	"go.uber.org/zap"
 	"google.golang.org/grpc"
+	"google.golang.org/grpc/codes"
 	"google.golang.org/grpc/status"
 	"google.golang.org/protobuf/types/known/emptypb"
 
@@ -88,9 +89,32 @@ func (f *fake) Bulk(ctx context.Context, in *storeapi.BulkRequest, _ ...grpc.Cal
 		return nil, status.FromContextError(ctxErr).Err() // what a gRPC client returns: code Canceled / DeadlineExceeded
 	}
 	if !ok {
-		return nil, errors.New("scripted failure")
+		return nil, failErr(f.host, n)
 	}
 	return &emptypb.Empty{}, nil
+}
+
+// failErr: the failures a store can answer with, chosen by host and call index (deterministic per case).  Every one of
+// them is a failed call: none may count as written, whatever its gRPC code.
+func failErr(host string, n int) error {
+	k := n
+	for _, ch := range host {
+		k += int(ch)
+	}
+	switch k % 6 {
+	case 0:
+		return errors.New("scripted failure")
+	case 1:
+		return status.Error(codes.Canceled, "store is shutting down")
+	case 2:
+		return status.Error(codes.DeadlineExceeded, "scripted timeout")
+	case 3:
+		return status.Error(codes.Unavailable, "scripted unavailable")
+	case 4:
+		return context.Canceled
+	default:
+		return status.Error(codes.ResourceExhausted, "scripted overload")
+	}
 }
 
 type tcase struct {
@@ -456,7 +480,7 @@ func (f *cfake) Bulk(ctx context.Context, in *storeapi.BulkRequest, _ ...grpc.Ca
 		time.Sleep(time.Duration(o.delayMs) * time.Millisecond)
 	}
 	if !o.ok {
-		return nil, errors.New("scripted failure")
+		return nil, failErr(f.host, n)
 	}
 	f.w.mu.Lock()
 	if string(in.Docs) == "docs-"+string(in.Metas) {
@@ -468,6 +492,12 @@ func (f *cfake) Bulk(ctx context.Context, in *storeapi.BulkRequest, _ ...grpc.Ca
 
 // runConcurrent returns one violation description per acknowledged bulk without a full replica set.
 func runConcurrent(rng *vh.RNG, hotS, hotR, coldS, coldR, nbulks int, directed bool) (cases []string, bad []string) {
+	return runBulks(rng, hotS, hotR, coldS, coldR, nbulks, directed, false)
+}
+
+// runBulks: sequential = the bulks run one after the other on the one client (whatever the client keeps between
+// bulks - pooled write statuses, breakers, buffers - is carried from a failed bulk into the next one).
+func runBulks(rng *vh.RNG, hotS, hotR, coldS, coldR, nbulks int, directed, sequential bool) (cases []string, bad []string) {
 	w := &cworld{script: map[string][]cout{}, ncalls: map[string]int{}, okCall: map[string]bool{}}
 	clients := map[string]storeapi.StoreApiClient{}
 	var hostsAll []string
@@ -505,7 +535,24 @@ func runConcurrent(rng *vh.RNG, hotS, hotR, coldS, coldR, nbulks int, directed b
 			w.script[h+"/"+ids[b]] = outs
 		}
 	}
-	if directed && nbulks >= 2 && hotR >= 2 {
+	if sequential {
+		// every even bulk exhausts its tries with partial success (one replica of every shard of a tier never accepts),
+		// every odd bulk meets healthy stores
+		for b := 0; b < nbulks; b++ {
+			for _, h := range hostsAll {
+				w.script[h+"/"+ids[b]] = []cout{{true, 0}, {true, 0}, {true, 0}}
+			}
+			if b%2 == 0 {
+				tier, S, R := "h", hotS, hotR
+				if coldS > 0 && rng.Bool() {
+					tier, S, R = "c", coldS, coldR
+				}
+				for s := 0; s < S; s++ {
+					w.script[hostName(tier, s, rng.Intn(R))+"/"+ids[b]] = []cout{{false, 0}, {false, 0}, {false, 0}, {false, 0}, {false, 0}}
+				}
+			}
+		}
+	} else if directed && nbulks >= 2 && hotR >= 2 {
 		// bulk 0: replica 0 of hot shard 0 always fails fast, the last replica succeeds slowly; bulk 1 enters the same
 		// shard inside that window and succeeds everywhere
 		h0, hl := hostName("h", 0, 0), hostName("h", 0, hotR-1)
@@ -521,13 +568,20 @@ func runConcurrent(rng *vh.RNG, hotS, hotR, coldS, coldR, nbulks int, directed b
 	var wg sync.WaitGroup
 	for b := 0; b < nbulks; b++ {
 		wg.Add(1)
-		go func(b int) {
+		one := func(b int) {
 			defer wg.Done()
-			time.Sleep(time.Duration(starts[b]) * time.Millisecond)
+			if !sequential {
+				time.Sleep(time.Duration(starts[b]) * time.Millisecond)
+			}
 			defer func() { recover() }()
 			err := cl.StoreDocuments(context.Background(), 1, []byte("docs-"+ids[b]), []byte(ids[b]))
 			acked[b] = err == nil
-		}(b)
+		}
+		if sequential {
+			one(b)
+		} else {
+			go one(b)
+		}
 	}
 	wg.Wait()
 	full := func(tier string, S, R int, id string) bool {
@@ -546,7 +600,11 @@ func runConcurrent(rng *vh.RNG, hotS, hotR, coldS, coldR, nbulks int, directed b
 		return false
 	}
 	for b := 0; b < nbulks; b++ {
-		desc := fmt.Sprintf("concurrent c%dx%d h%dx%d bulks=%d directed=%v bulk=%s acked=%v", coldS, coldR, hotS, hotR, nbulks, directed, ids[b], acked[b])
+		mode := "concurrent"
+		if sequential {
+			mode = "sequential"
+		}
+		desc := fmt.Sprintf("%s c%dx%d h%dx%d bulks=%d directed=%v bulk=%s acked=%v", mode, coldS, coldR, hotS, hotR, nbulks, directed, ids[b], acked[b])
 		cases = append(cases, desc)
 		if acked[b] && (!full("h", hotS, hotR, ids[b]) || !full("c", coldS, coldR, ids[b])) {
 			bad = append(bad, desc)
@@ -747,6 +805,23 @@ func main() {
 			}
 		}
 		rep.AddOracle(corc)
+		sorc := vh.NewOracle("replica.sequence", "several bulks one after the other on one client, every second one exhausting its tries with partial success; per payload: acknowledged => a full replica set per tier accepted exactly that payload (nothing a failed bulk leaves in the client may count for a later one); non-trivial = acknowledged bulk after a failed one")
+		srng := vh.NewRNG(o.Seed + 99)
+		for i := 0; i < o.Pick(6, 60); i++ {
+			hotS, hotR := srng.Range(1, 2), srng.Range(2, 3)
+			coldS, coldR := 0, 0
+			if srng.Chance(1, 2) {
+				coldS, coldR = 1, srng.Range(1, 2)
+			}
+			cases, bad := runBulks(srng, hotS, hotR, coldS, coldR, 6, false, true)
+			for k, c := range cases {
+				sorc.Case(fmt.Sprintf("%d:%s", i, c), k%2 == 1 && strings.HasSuffix(c, "acked=true"), "sequential=1")
+			}
+			for _, b := range bad {
+				rep.Violate(vh.Violation{Site: "proxy/bulk/seqdb_client.go:StoreDocuments", Class: "sequential-ack-without-full-replica-set", What: "acknowledged although no full replica set accepted this payload (after an earlier failed bulk on the same client): " + b, Replay: []string{b}})
+			}
+		}
+		rep.AddOracle(sorc)
 	}
 	rep.Write(o.Out)
 }
